@@ -12,7 +12,8 @@ CASE_TIMEOUT = "10s"
 RULE = ("random method multigraphs (1-6 classes, 1-25 methods, out-degree 0-8, cycles, self-loops, parallel "
         "edges, unresolved and receiver-less callees, names with quotes) plus structured families "
         "(caller invoking the target k times, callers with their own callers, cycles through the target, "
-        "diamonds); a case is non-trivial when the target has at least one caller; distinct = distinct input")
+        "diamonds); a case is non-trivial when the target has at least one caller; distinct = distinct input"
+        '; every third history is also run through `coca rcall -c TARGET -d deps.json`, all its targets in one report directory (rcall.dot and rcallmap.json as they stand after each run)')
 TRUSTED_BASE = ["modelled, not verified: Go map iteration (the reverse map is compared as a map), string concatenation"]
 ASSUMPTIONS = ["the harness reads the reverse-call map through the writeCallback argument and sorts it by key",
                "DOT well-formedness is decided by Lib/Dot.v's parser for the statement shapes coca prints"]
